@@ -1,8 +1,6 @@
 """C18 Files with template or parse errors are never modified by fix."""
 import os
 
-from hypothesis import strategies as st
-
 from vlib import clilib as C
 from vlib.framework import Check, Outcome
 from vlib.sf import FORMAT_RULES, Crash, guard
@@ -10,31 +8,33 @@ from vlib.sf import FORMAT_RULES, Crash, guard
 CLI_ENTRIES = ["fix-path", "fix-stdin", "format-path", "format-stdin", "fix-check-y"]
 
 
-@st.composite
-def scenario(draw):
-    mode = draw(st.sampled_from(["error", "error", "error", "error", "looplimit"]))
+def scenario(pick):
+    mode = pick.choice(["error", "error", "error", "error", "looplimit"])
     if mode == "looplimit":
-        sql, names, hkind, jinja = draw(C.content(errors="none", noqa="none", max_parts=3,
-                                                  classes=("clean", "fixable", "multipass", "multipass", "unfixable")))
-        cfg = draw(C.core_cfg(templater_jinja=jinja))
-        cfg["runaway_limit"] = draw(st.sampled_from([1, 1, 2]))
+        sql, names, hkind, jinja = C.content(pick, errors="none", noqa="none", max_parts=3,
+                                                  classes=("clean", "fixable", "multipass", "multipass", "unfixable"))
+        cfg = C.core_cfg(pick, templater_jinja=jinja)
+        cfg["runaway_limit"] = pick.choice([1, 1, 2])
     else:
-        sql, names, hkind, jinja = draw(C.content(errors="always", noqa="errors", max_parts=3,
-                                                  classes=("clean", "fixable", "fixable", "fixable", "multipass", "unfixable")))
+        sql, names, hkind, jinja = C.content(pick, errors="always", noqa="errors", max_parts=3,
+                                                  classes=("clean", "fixable", "fixable", "fixable", "multipass", "unfixable"))
         # suppression through the configuration as often as through noqa; the lint violations mostly stay live
-        cfg = draw(C.core_cfg(feu=True, templater_jinja=jinja,
+        cfg = C.core_cfg(pick, feu=True, templater_jinja=jinja,
+                              rule_sets=[None, None, "core", "all", "LT01,CP01,LT09,LT02,LT12", "layout,capitalisation",
+                                         "LT01,LT09,LT02,AM01,AL04,LT05"],
+                              excludes=[None, None, None, None, "CP01", "LT09,LT02", "LT12"],
                               ignore=[None, None, None, "parsing", "templating", "parsing,templating", "parsing,templating",
                                       "parsing,templating,linting"],
-                              warnings=[None, None, None, "PRS", "TMP", "PRS,TMP", "PRS,TMP", "LT01", "PRS,TMP,CP01"]))
+                              warnings=[None, None, None, "PRS", "TMP", "PRS,TMP", "PRS,TMP", "LT01", "PRS,TMP,CP01"])
     case = {"sql": sql, "fname": "q.sql", "cfg": cfg, "pieces": names,
-            "entries": sorted(draw(st.sets(st.sampled_from(CLI_ENTRIES + CLI_ENTRIES[:2]), min_size=2, max_size=2)))}
-    if C.chance(draw, 1, 5):
+            "entries": sorted(pick.sample(CLI_ENTRIES, 2))}
+    if pick.chance(1, 5):
         case["fname"] = "sub/q.sql"
-        case["sub"] = draw(C.sub_cfg())
+        case["sub"] = C.sub_cfg(pick)
     cli = {}
-    if mode == "error" and C.chance(draw, 1, 6):
-        cli["ignore"] = draw(st.sampled_from(["parsing", "templating", "parsing,templating"]))
-    if mode == "error" and C.chance(draw, 1, 12):
+    if mode == "error" and pick.chance(1, 6):
+        cli["ignore"] = pick.choice(["parsing", "templating", "parsing,templating"])
+    if mode == "error" and pick.chance(1, 12):
         cli["feu"] = True
     if cli:
         case["cli"] = cli
@@ -74,7 +74,7 @@ class C18(Check):
         assert C.is_tmp_prs({"code": "PRS"}) and C.is_tmp_prs({"code": "TMP"}) and not C.is_tmp_prs({"code": "LXR"})
 
     def strategy(self, tier):
-        return scenario()
+        return C.scenarios(scenario)
 
     def examples(self, tier):
         return 9 if tier == "quick" else 250
